@@ -23,7 +23,7 @@ FLP == [k |-> "var", segs |-> <<[t |-> "k", v |-> "forloop"], [t |-> "k", v |-> 
 PartL == <<NText("[l:"), For("j", RangeE(I(1), I(2)), "(1..2)", NoOpt, NoOpt, FALSE, <<NOut(P(VP("forloop", "index"))), NText("<"), NOut(P(FLP)), NText(">")>>, NoElse), NText("]")>>
 Boom == NOut(F(I(1), <<Fl("divided_by", <<I(0)>>)>>))       \* raises LiquidTypeError
 PartE == <<NText("[e:"), Assign("y", P(S("E"))), Boom, NText("]")>>
-MCPartials == << <<"p", PartP>>, <<"q", PartQ>>, <<"r", PartR>>, <<"s", PartS>>, <<"b", PartB>>, <<"e", PartE>>, <<"l", PartL>> >>
+MCPartials == << <<"p", PartP>>, <<"q", PartQ>>, <<"r", PartR>>, <<"s", PartS>>, <<"b", PartB>>, <<"e", PartE>>, <<"l", PartL>>, <<"dir/q.html", PartQ>> >>
 
 MCData == { << <<<<"x", vx>>, <<"y", Str("Y")>>, <<"arr", Arr(<<IntV(1), IntV(2)>>)>>, <<"n", Str("p")>>>>, <<>>, <<>>, <<>> >>
               : vx \in {Str("X")} }
@@ -45,6 +45,8 @@ Partial == {Include(S("p"), "none", NilE, "", <<>>),
             Include(S("q"), "for", V("arr"), "x", <<WArg("y", I(9))>>),
             Include(S("p"), "none", NilE, "", <<WArg("x", I(8)), WArg("z", Y)>>),
             Include(V("n"), "none", NilE, "", <<>>),
+            Include(S("dir/q.html"), "with", I(5), "", <<>>), Include(S("dir/q.html"), "for", V("arr"), "", <<>>),
+            RenderT(S("dir/q.html"), "with", I(6), "", <<>>), RenderT(S("dir/q.html"), "for", V("arr"), "", <<>>),
             Include(S("b"), "none", NilE, "", <<>>),
             RenderT(S("p"), "none", NilE, "", <<>>),
             RenderT(S("p"), "with", X, "", <<>>),
